@@ -8,6 +8,7 @@
   Theorem: the code's recursive `match` equals it for ALL filters and topics.
 -/
 import Bisquitt.Spec.Match
+import Bisquitt.Model.Client
 
 namespace Bisquitt
 
@@ -54,5 +55,65 @@ example : specMatch [plusLevel, plusLevel] [[], [0x66]] = true := by decide
 example : specMatch [plusLevel] [[], [0x66]] = false := by decide
 example : splitTopic [0x73, 0x2F] = [[0x73], []] ∧ splitTopic [0x2F, 0x66] = [[], [0x66]] ∧
     splitTopic [] = [[]] := by decide
+
+/-! ### the history half: which callback runs (client model) -/
+
+namespace Cl
+open Cl
+
+theorem lookup_mem {α β} [BEq α] [LawfulBEq α] {l : List (α × β)} {a : α} {b : β} (h : l.lookup a = some b) :
+    (a, b) ∈ l := by
+  induction l with
+  | nil => simp at h
+  | cons x xs ih =>
+    obtain ⟨k, v⟩ := x
+    simp only [List.lookup_cons] at h
+    split at h
+    · rename_i he
+      have : a = k := by simpa using he
+      simp_all
+    · exact List.mem_cons_of_mem _ (ih h)
+
+/-- **C27 (dispatch).** Every callback that may run for a topic belongs to a stored subscription
+    whose filter matches the topic under the MQTT rules (`specMatch`, via `c27_match`). -/
+theorem c27_dispatch (c : Cl) (topic label : Bytes) (h : label ∈ c.matching topic) :
+    ∃ filter, (filter, label) ∈ c.handlers ∧ c.handlers.lookup filter = some label ∧
+      specMatch (splitTopic filter) (splitTopic topic) = true := by
+  unfold matching at h
+  simp only [List.mem_filterMap] at h
+  obtain ⟨k, _, hk⟩ := h
+  cases hl : c.handlers.lookup k with
+  | none => simp [hl] at hk
+  | some l =>
+    simp only [hl] at hk
+    split at hk
+    · rename_i hm
+      simp only [Option.some.injEq] at hk
+      subst hk
+      exact ⟨k, lookup_mem hl, hl, by rw [← c27_match]; exact hm⟩
+    · simp at hk
+
+/-- **C27.** Nothing is dispatched when no stored filter matches. -/
+theorem c27_no_match_no_callback (c : Cl) (topic : Bytes) (q : UInt8) (r : Bool) (d : Bytes)
+    (h : c.matching topic = []) : c.deliver topic q r d = c := by
+  unfold deliver; simp [h]
+
+/-- **C27 (unsubscribe).** Once UNSUBACK has been processed for a filter, no subscription with
+    that filter is stored any more, so its callback can never be chosen again (until a new
+    Subscribe succeeds). -/
+theorem c27_unsubscribed (hs : List (Bytes × Bytes)) (n : Bytes) :
+    (hs.filter (·.1 != n)).lookup n = none := by
+  induction hs with
+  | nil => rfl
+  | cons x xs ih =>
+    obtain ⟨k, v⟩ := x
+    by_cases h : k = n
+    · subst h; simpa using ih
+    · have h1 : (k != n) = true := by simpa using h
+      have h2 : (n == k) = false := by simpa using fun e => h e.symm
+      simp only [List.filter_cons, h1, if_true, List.lookup_cons, h2]
+      exact ih
+
+end Cl
 
 end Bisquitt
